@@ -383,14 +383,19 @@ var sfiles *srvfix.Files
 
 type scen struct {
 	name    string
-	threads [][]string // "q" = query www A (cacheable); "reload" = full reload to the next generation
+	threads [][]string // "q" = query www A (cacheable); "reload" = full reload to the next generation; "preload" = the next generation is published at the served path and a partial reload follows
+	rocks   bool       // RocksDB-like backend: a partial reload catches up in place and returns the same backend
 }
 
 var scens = []scen{
-	{"query-x-reload", [][]string{{"q"}, {"reload"}}},
-	{"2queries-x-reload", [][]string{{"q", "q"}, {"reload"}}},
-	{"query-x-query-x-reload", [][]string{{"q"}, {"q"}, {"reload"}}},
-	{"query-x-reload-reload", [][]string{{"q"}, {"reload", "reload"}}},
+	{"query-x-reload", [][]string{{"q"}, {"reload"}}, false},
+	{"2queries-x-reload", [][]string{{"q", "q"}, {"reload"}}, false},
+	{"query-x-query-x-reload", [][]string{{"q"}, {"q"}, {"reload"}}, false},
+	{"query-x-reload-reload", [][]string{{"q"}, {"reload", "reload"}}, false},
+	// in-place catch-up: db.Reload returns the SAME *db.DB with new content; the purge must happen all the same
+	{"rocks: query, partial reload, query", [][]string{{"q", "preload", "q"}}, true},
+	{"rocks: query-x-partial-reload", [][]string{{"q"}, {"preload"}}, true},
+	{"rocks: 2queries-x-partial-reload", [][]string{{"q", "q"}, {"preload"}}, true},
 }
 
 type srun struct {
@@ -401,6 +406,7 @@ type srun struct {
 	relEnd []int // step at which each successful reload returned, and its generation
 	relGen []int
 	bad    []string
+	rocks  bool
 }
 
 func (x *srun) query(tag string) {
@@ -415,10 +421,13 @@ func (x *srun) query(tag string) {
 		return
 	}
 	st := srvfix.Stamps(w.Msgs[0])
-	if len(st) != 1 {
+	if len(st) == 0 || (len(st) != 1 && !x.rocks) {
+		// (with an in-place catch-up a query running DURING the catch-up may compose its response from two
+		// generations: that is C05's subject and its known finding; here only staleness is judged, on the oldest stamp)
 		x.bad = append(x.bad, fmt.Sprintf("stamps-%v", st))
 		return
 	}
+	sort.Ints(st)
 	// the newest generation whose reload had returned before this query started
 	min := 1
 	for i, e := range x.relEnd {
@@ -428,6 +437,19 @@ func (x *srun) query(tag string) {
 	}
 	if st[0] < min {
 		x.bad = append(x.bad, "stale-generation-served-after-reload-returned:"+tag)
+	}
+}
+
+// preload publishes the next generation at the served path and asks for a partial reload.
+func (x *srun) preload() {
+	x.gen++
+	x.w.Paths["P1"] = &srvfix.Content{Gen: x.gen}
+	vsched.Touch(x.w, "publish", true)
+	err := x.h.Reload(*dnsserver.NewPartialReloadSignal())
+	vsched.Yield(x.clock, "reload-end", true)
+	if err == nil {
+		x.relEnd = append(x.relEnd, vsched.Step())
+		x.relGen = append(x.relGen, x.gen)
 	}
 }
 
@@ -447,22 +469,25 @@ func (x *srun) reload() {
 func buildScen(sc scen) (func(), func(*vsched.Result) []string) {
 	var x *srun
 	body := func() {
-		w := srvfix.NewWorld(sfiles, false)
+		w := srvfix.NewWorld(sfiles, sc.rocks)
 		h, err := dnsserver.NewFBDNSDBBasic(dnsserver.HandlerConfig{}, dnsserver.DBConfig{Path: "P1", Driver: "proxy", ReloadTimeout: 1 << 40, ValidationKey: srvfix.ValidationKey()},
 			dnsserver.CacheConfig{Enabled: true, LRUSize: 16}, &dnsserver.DummyLogger{}, &stats.DummyStats{})
 		if err != nil {
 			panic(err)
 		}
 		h.SetDBForVerif(db.NewDBForVerif(w.OpenInitial("P1")))
-		x = &srun{w: w, h: h, clock: new(int), gen: 1}
+		x = &srun{w: w, h: h, clock: new(int), gen: 1, rocks: sc.rocks}
 		var ts []*vsched.Thread
 		for i, ops := range sc.threads {
 			i, ops := i, ops
 			ts = append(ts, vsched.GoNamed(fmt.Sprintf("T%d", i), false, func() {
 				for _, op := range ops {
-					if op == "q" {
+					switch op {
+					case "q":
 						x.query("concurrent")
-					} else {
+					case "preload":
+						x.preload()
+					default:
 						x.reload()
 					}
 				}
